@@ -255,6 +255,9 @@ func (w *lw) capacityDontCare(loc string, overwrite bool) (mustRefuse, dontCare 
 
 func (w *lw) step(op h.Op) {
 	m := w.model
+	if op.K != "sleep" {
+		m.PurgeAll()
+	}
 	switch op.K {
 	case "sleep":
 		time.Sleep(time.Duration(op.N))
@@ -354,6 +357,16 @@ func (w *lw) step(op h.Op) {
 			if err != nil {
 				w.after(op)
 				return
+			}
+		}
+		if err != nil && strings.Contains(err.Error(), "is not sortable") {
+			// indexed state refuses a `when` with a heterogeneous array or an
+			// array of maps; nothing was stored, the model follows the engine
+			if _, _, _, merr := h.NewModel(time.Now).AddRule(op.Loc, op.Id, body, h.Prot{}); merr == nil {
+				if w.soft("refused-valid-operation", "addrule:array-not-sortable", "AddRule refused %s: %v", h.Canon(body), err) {
+					w.after(op)
+					return
+				}
 			}
 		}
 		mid, it, gen, merr := m.AddRule(op.Loc, op.Id, body, prot(op))
@@ -602,6 +615,7 @@ func (w *lw) checkGet(locName, id string, p h.Prot, op h.Op) {
 	loc := w.eng.Loc(locName)
 	var got core.Map
 	var err error
+	w.model.PurgeAll()
 	w.call("GetFact", func() { got, err = loc.GetFact(h.NewCtx(p), id) })
 	unc := w.model.IsUncertain(locName, id)
 	it, merr := w.model.Get(locName, id, p)
@@ -616,16 +630,19 @@ func (w *lw) checkGet(locName, id string, p h.Prot, op h.Op) {
 		w.fail("get-stale", "get:"+w.goneKind(locName, id), "GetFact(%s/%s) returned %s but the model says it must fail (%v)", locName, id, h.Canon(map[string]interface{}(got)), merr)
 	}
 	if err == nil {
-		g := h.Canon(stripId(got))
-		if g != h.Canon(it.Body) {
+		g := h.Canon(sortSets(stripId(got)))
+		if g != h.Canon(sortSets(it.Body)) {
 			w.fail("get-content", "get:"+w.itemKind(it), "GetFact(%s/%s) = %s, model has %s", locName, id, g, h.Canon(it.Body))
 		}
 	}
 }
 
+func sortSets(v interface{}) interface{} { return h.SortSets(h.Parse(h.Canon(v))) }
+
 // stripId removes the injected `_id` field: under id injection the engine
 // may add it to what it returns; the statements do not speak about it.
-func stripId(m map[string]interface{}) map[string]interface{} {
+func stripId(m0 core.Map) map[string]interface{} {
+	m := map[string]interface{}(m0)
 	if _, ok := m["_id"]; !ok {
 		return m
 	}
@@ -670,6 +687,7 @@ func (w *lw) checkSearch(locName string, pattern map[string]interface{}, inherit
 	loc := w.eng.Loc(locName)
 	var srs *core.SearchResults
 	var err error
+	w.model.PurgeAll()
 	w.call("SearchFacts", func() { srs, err = loc.SearchFacts(h.NewCtx(p), core.Map(h.CloneMap(pattern)), inherited) })
 	want, merr := w.model.Search(locName, pattern, inherited, p)
 	if me, ok := merr.(*h.ErrModel); ok && strings.HasPrefix(me.Why, "matcher:") {
@@ -729,6 +747,7 @@ func (w *lw) checkDispatch(locName string, event map[string]interface{}, p h.Pro
 	loc := w.eng.Loc(locName)
 	var fr *core.FindRules
 	var cond *core.Condition
+	w.model.PurgeAll()
 	w.call("ProcessEvent", func() { fr, cond = loc.ProcessEvent(h.NewCtx(p), core.Map(h.CloneMap(event))) })
 	want, merr := w.model.Dispatch(locName, event, p)
 	if me, ok := merr.(*h.ErrModel); ok && strings.HasPrefix(me.Why, "matcher:") {
@@ -737,7 +756,9 @@ func (w *lw) checkDispatch(locName string, event map[string]interface{}, p h.Pro
 	failed := cond != nil
 	if failed != (merr != nil) {
 		if failed {
-			w.fail("dispatch-failed", "event:"+condKind(cond), "ProcessEvent(%s, %s) failed with %q; the model dispatches %v", locName, h.Canon(event), cond.Msg, want)
+			if w.soft("dispatch-failed", "event:"+condKind(cond), "ProcessEvent(%s, %s) failed with %q; the model dispatches %v", locName, h.Canon(event), cond.Msg, want) {
+				return
+			}
 		}
 		w.fail("dispatch-accepted", "event", "ProcessEvent(%s, %s) succeeded; the model refuses (%v)", locName, h.Canon(event), merr)
 	}
@@ -745,7 +766,9 @@ func (w *lw) checkDispatch(locName string, event map[string]interface{}, p h.Pro
 		return
 	}
 	got := h.ObsDispatch(fr)
-	skip := func(id string) bool { return w.uncertainAnywhere(locName, id, true) }
+	skip := func(id string) bool {
+		return w.uncertainAnywhere(locName, id, true) || w.model.IsUncertain(locName, h.PropId(id, "disabled"))
+	}
 	if d := h.DiffSets(got, want, skip); d != "" {
 		w.fail("dispatch-mismatch", "event:"+diffKind(d)+":"+w.whenShapes(locName, d), "ProcessEvent(%s, %s): %s", locName, h.Canon(event), d)
 	}
@@ -765,6 +788,8 @@ func condKind(c *core.Condition) string {
 		return "duplicate-id"
 	case strings.Contains(msg, "loop"):
 		return "loop"
+	case strings.Contains(msg, "is not sortable"):
+		return "array-not-sortable"
 	}
 	if len(msg) > 30 {
 		msg = msg[:30]
